@@ -332,7 +332,7 @@ def decide_X(prop, tier, seed, t0, replay):
         "rule": "operations = API-level calls (new/new_uninit/get/set/unpack/drop/4 conversion forms/clone/clone_from/serde round trips/placements) on generated modules compiled in 3 builds (debug+hook, release+hook, release without hook), each compared with the Lean machine's prediction (values, drop multiset, primitive-access multiset); distinct by request text; non-trivial = everything but plain constructors and reads",
         "samples": an["samples"][:3], "traces_validated_against_impl": an["ops"], "modules": an["modules"], "ops_by_kind": an["by_op"],
         "modules_meeting_theorem_hypotheses (ModuleWF evaluated by the driver)": an.get("modules_meeting_theorem_hypotheses"),
-        "primitive_accesses_checked": an["accesses"], "disagreements": an["n_disagree"] + lan.get("n_disagree", 0), "oracle_hits": len(oracle),
+        "primitive_accesses_checked": an["accesses"], "variant_layouts_checked_for_overlap": an.get("layouts_checked"), "definitions_the_builder_panicked_on": len(an.get("builder_panics", [])), "disagreements": an["n_disagree"] + lan.get("n_disagree", 0), "oracle_hits": len(oracle),
         "generator_histories_compared": lan["histories"],
         "builds": {k: {kk: vv for kk, vv in v.items() if kk != "dir"} for k, v in info["builds"].items()},
         "translated_primitives": prims, "channel_cached": info.get("cached", False), "exhaustive": False,
@@ -419,6 +419,52 @@ def decide_V(prop, tier, seed, t0, replay):
     return rc
 
 
+def shrink_L(prop, requests, budget_s=45, max_tries=150):
+    """delta-debugging of a failing builder history: drop requests while the property's oracle still fires
+    (or, for want of an oracle hit, while implementation and model still disagree). Returns (requests, tries)."""
+    import tempfile, shutil
+    reqs = [r for r in requests if r and not r.startswith("#")]
+    if not reqs or not reqs[0].startswith("reset"):
+        return requests, 0
+    head, body = reqs[0], reqs[1:]
+    t0 = time.time()
+    tries = 0
+    tmp = tempfile.mkdtemp(prefix="shrinkL", dir=WORK)
+
+    def fails(cand):
+        nonlocal tries
+        tries += 1
+        f = os.path.join(tmp, "h.txt")
+        open(f, "w").write("\n".join([head] + cand) + "\n")
+        d = os.path.join(tmp, "out")
+        r = chan_l._run_shard((f"file:{f}", 0, 0, d))
+        if "error" in r:
+            return False
+        a = chan_l.analyse([d], prop)
+        return any(o["property"] == prop for o in a["oracle"])
+
+    try:
+        if not fails(body):
+            return requests, tries
+        chunk = max(1, len(body) // 2)
+        while chunk >= 1 and time.time() - t0 < budget_s and tries < max_tries:
+            i = 0
+            progressed = False
+            while i < len(body) and time.time() - t0 < budget_s and tries < max_tries:
+                cand = body[:i] + body[i + chunk:]
+                if cand != body and fails(cand):
+                    body = cand
+                    progressed = True
+                else:
+                    i += chunk
+            if chunk == 1 and not progressed:
+                break
+            chunk = chunk // 2 if chunk > 1 else (1 if progressed else 0)
+        return [head] + body, tries
+    finally:
+        shutil.rmtree(tmp, ignore_errors=True)
+
+
 def fmt_history(h):
     return "\n".join(h["requests"])
 
@@ -449,7 +495,7 @@ def decide_L(prop, tier, seed, t0, replay):
         xan, xreq = chan_x.analyse(xinfo, read_prims())
         for o in xan["oracle"]:
             if o["property"] == prop:
-                oracle.append({"property": prop, "message": o["message"] + f" (build {o['build']})", "requests": chan_x.module_of(xreq, o["line"]) if xreq else []})
+                oracle.append({"property": prop, "message": o["message"] + f" (build {o['build']})", "requests": (o.get("requests") or (chan_x.module_of(xreq, o["line"]) if xreq else []))})
         sizes_bad = [d for d in xan["disagreements"] if d and d["request"].startswith("x sizes")]
         if sizes_bad:
             an["n_disagree"] = an.get("n_disagree", 0) + len(sizes_bad)
@@ -464,7 +510,7 @@ def decide_L(prop, tier, seed, t0, replay):
         xan, xreq = chan_x.analyse(xinfo, read_prims())
         for o in xan["oracle"]:
             if o["property"] == "C13":
-                oracle.append({"property": "C13", "message": o["message"], "requests": chan_x.module_of(xreq, o["line"]) if xreq else []})
+                oracle.append({"property": "C13", "message": o["message"], "requests": (o.get("requests") or (chan_x.module_of(xreq, o["line"]) if xreq else []))})
         not_compiled = [k for k, b in xinfo.get("builds", {}).items() if not b.get("compiled")]
         if (not_compiled or xinfo["errors"]) and not any(o["property"] == "C13" for o in xan["oracle"]):
             an["n_disagree"] = an.get("n_disagree", 0) + 1
@@ -488,9 +534,16 @@ def decide_L(prop, tier, seed, t0, replay):
     rc = 0
     lines = []
     if oracle:
-        o = oracle[0]
+        o = min(oracle, key=lambda x: len(x.get("requests", [])) or 10 ** 9)
+        shrunk, tries = (o["requests"], 0)
+        if not replay and o.get("requests") and o["requests"][0].startswith("reset"):
+            try:
+                shrunk, tries = shrink_L(prop, o["requests"])
+            except Exception as e:  # the shrinker is a convenience; the unshrunk history is still a valid replay
+                shrunk, tries = (o["requests"], -1)
         body = (f"# kind: implementation-vs-oracle (the real code breaks {prop} on this input)\n# {o['message']}\n"
-                f"# {len(oracle)} failing histories in this run; replay: ./check {prop} --replay <this file>\n" + fmt_history(o) + "\n")
+                f"# {len(oracle)} failing histories in this run; this one shrunk from {len(o.get('requests', []))} to {len(shrunk)} requests in {tries} tries; "
+                f"replay: ./check {prop} --replay <this file>\n" + "\n".join(shrunk) + "\n")
         k = known_match(prop, o["message"])
         if k and all(known_match(prop, x["message"]) for x in oracle):
             lines.append(f"KNOWN-FINDING: property={prop} {k['what']}")
